@@ -138,8 +138,12 @@ fn fire(outcome: Outcome, token: &str) -> ! {
 #[cfg(feature = "tracing")]
 fn emit_log(tok: &str) {
     // message shapes: plain, multi-line, and containing the collector's `__` separator
-    match tok.bytes().map(u32::from).sum::<u32>() % 4 {
+    match tok.bytes().map(u32::from).sum::<u32>() % 6 {
         0 => tracing::info!("{tok}"),
+        // from inside a span of the user's own, nested in the step / hook span
+        4 => tracing::info_span!("user_inner", depth = 1).in_scope(|| tracing::warn!("inner span {tok}")),
+        // structured fields instead of a plain message
+        5 => tracing::info!(token = tok, answer = 42, "fields"),
         1 => tracing::info!("first line\nsecond line {tok}"),
         2 => tracing::info!("dunder __ inside __{tok}"),
         // the collector's own "no scenario" marker inside a user message (such messages were lost before fix 5b3df26)
